@@ -249,6 +249,10 @@ def sample_reads(cfg, hist):
 
 
 def run(tier, seed, rep):
+    # histories of public API calls and device changes on one object, then probes of the API-level properties
+    from .. import api_sessions
+    _api = api_sessions.explore(tier, seed, {'C18'})
+    rep.add_many([v for v in _api['violations'] if v['prop'] == 'C18'])
     cfgs = configs(tier)
     depth = 3 if tier == 'thorough' else 2
     jobs = [(c, depth, 'udp') for c in cfgs] + [(c, 2, 'tcp') for c in cfgs if c['family'] != 'ES'][::3]
@@ -284,7 +288,8 @@ def run(tier, seed, rep):
         for name in miss:
             rep.add(f"vacuity/{c['family']}/{name}", 'in-range arguments must produce a write (harness sanity)',
                     dict(part='vacuity', cfg=c), dict(call=name))
-    cov = dict(states=states, transitions=max(edges, 1), executions=total + ne + ns, traces_validated_against_impl=total + ne + ns,
+    cov = dict(api_session_histories=_api['histories'], api_session_states=_api['states'],
+               states=states, transitions=max(edges, 1), executions=total + ne + ns, traces_validated_against_impl=total + ne + ns,
                read_sequences=total, entry_point_runs=ne, setter_calls=ns, distinct_read_outcomes=ocs, exhaustive=True,
                bound=f'BFS over read-only call sequences of depth <= {depth} ({len(READ_OPS)} calls) with state de-duplication x '
                      f'{len(cfgs)} configurations (families, capability fallbacks, eco-mode register contents); connect() and '
@@ -296,6 +301,11 @@ def run(tier, seed, rep):
 
 
 def replay(r):
+    if r.get('part') == 'api-session':
+        from .. import api_sessions
+        out = api_sessions.replay(r)
+        out['violations'] = [m for m in out['violations'] if m[0] == 'C18']
+        return out
     cfg = r['cfg']
     cfg['refused'] = tuple(cfg['refused'])
     if isinstance(cfg.get('firmware'), dict):
